@@ -323,6 +323,54 @@ func BigNumSweep(emit func(*Program)) {
 	}
 }
 
+// ArithEdges: the arithmetic opcodes on operands at the edges of the machine integer widths, paired with the
+// small operands for which a fixed-width implementation overflows or changes sign (x / -1, x * -1, x - 1, ...),
+// in both operand orders; all pairs of wide operands when deep. And OP_NUM2BIN / OP_BIN2NUM on every encoding of
+// zero, negative zero and padded numbers with the requested size equal to, one below and one above the operand's.
+func ArithEdges(emit func(*Program), deep bool) {
+	small := [][]byte{{0x81}, {0x01}, {0x82}, {0x02}, {0x03}, {}}
+	ops := []byte{0x93, 0x94, 0x95, 0x96, 0x97}
+	all := []byte{0x93, 0x94, 0x95, 0x96, 0x97, 0x9a, 0x9b, 0x9c, 0x9e, 0x9f, 0xa0, 0xa1, 0xa2, 0xa3, 0xa4}
+	one := func(a, b []byte, op byte) {
+		for _, fl := range []uint32{FGenesis, 0} {
+			emit((&Program{Unlock: []byte{}, Lock: catb(Push(a), Push(b), []byte{op, 0x74, 0x75, 0x51}), Flags: fl, Kind: "arith-edge"}).Fix())
+		}
+	}
+	for _, n := range BigNums {
+		for _, m := range small {
+			for _, op := range ops {
+				one(n, m, op)
+				one(m, n, op)
+			}
+		}
+		for _, op := range []byte{0x8b, 0x8c, 0x8f, 0x90, 0x91, 0x92} {
+			emit((&Program{Unlock: []byte{}, Lock: catb(Push(n), []byte{op, 0x74, 0x75, 0x51}), Flags: FGenesis, Kind: "arith-edge"}).Fix())
+		}
+	}
+	if deep {
+		for _, n := range BigNums {
+			for _, m := range BigNums {
+				for _, op := range all {
+					one(n, m, op)
+				}
+			}
+		}
+	}
+	encs := [][]byte{{}, {0x00}, {0x80}, {0x00, 0x00}, {0x00, 0x80}, {0x80, 0x00}, {0x00, 0x00, 0x80}, {0x00, 0x00, 0x00, 0x80}, {0x00, 0x00, 0x00, 0x00, 0x80},
+		{0x01, 0x00}, {0x01, 0x80}, {0x01, 0x00, 0x80}, {0x01, 0x00, 0x00}, {0x7f, 0x00}, {0x80, 0x00, 0x00}, {0x80, 0x80}, {0xff, 0x00, 0x80}, {0x2a, 0x80}, {0x81}, {0xff, 0xff, 0xff, 0xff, 0x00}}
+	for _, x := range encs {
+		for d := -1; d <= 1; d++ {
+			sz := len(x) + d
+			if sz < 0 {
+				continue
+			}
+			for _, fl := range []uint32{FGenesis, 0, FGenesis | FMinimalData} {
+				emit((&Program{Unlock: []byte{}, Lock: catb(Push(x), Push(NumEnc(int64(sz))), []byte{0x80, 0x76, 0x81, 0x74, 0x75, 0x51}), Flags: fl, Kind: "num2bin-size"}).Fix())
+			}
+		}
+	}
+}
+
 func catb(parts ...[]byte) []byte {
 	var out []byte
 	for _, p := range parts {
